@@ -4,7 +4,7 @@ from . import register
 from .c20 import follow_to_params
 from ..analysis import (backslice, aggregates, agg_field, switch_targets_bool, count_nots, closure_creation, forward_locals,
                         direct_field, direct_def, base_named_local, truth_table, table_equals, field_writes, comparisons)
-from ..facts import const_int, op_local, op_place, op_const, const_val, const_bool, rvalue_operands
+from ..facts import const_int, op_local, op_place, op_const, const_val, const_bool, rvalue_operands, rvalue_places, place_fields
 
 DOC = {
     'explanation': 'Decided clauses of the keep/drop selection: the retain predicate of partition() folds to should_keep OR NOT may_drop (R1); the sub-group quantifiers are any/all and the '
@@ -42,6 +42,7 @@ def run(ctx):
     r10(ctx)
     from . import c09
     reevaluate(ctx, 'C08.R12', c09.r17)
+    r12b(ctx)
     r11(ctx)
     r4(ctx)
     r5(ctx)
@@ -192,8 +193,9 @@ def r2(ctx):
                 m = pm[0].path.rsplit('::', 1)[-1]
                 rs = backslice(cb, [0])
                 byname = rs.has_call(r'file_name_cstr$')
-                want = 'matches' if byname else 'matches_path'
-                ctx.check(m == want and count_nots(cb, rs) == 0, rule, cp + '|leaf', pm[0].where(), 'Pattern::%s on the %s' % (m, 'file name' if byname else 'path'), 'leaf predicate uses %s (negations %d)' % (m, count_nots(cb, rs)))
+                # (both are the full, anchored match: matches_path takes a path, matches the same path as text - one of the names of the file)
+                want = ('matches',) if byname else ('matches_path', 'matches')
+                ctx.check(m in want and count_nots(cb, rs) == 0, rule, cp + '|leaf', pm[0].where(), 'Pattern::%s on the %s' % (m, 'file name' if byname else 'path'), 'leaf predicate uses %s (negations %d)' % (m, count_nots(cb, rs)))
     ctx.floor(rule, 'pattern leaf closures', n, 4)
 
 
@@ -548,3 +550,39 @@ def r11(ctx):
     ctx.check(ok or not roots_used, rule, b.path + '|report-order-restored', site, 'after sub-grouping the sub-groups are sorted back into the order of the input file (positions recorded before grouping)',
               'FileSubGroup::group returns the sub-groups of the isolated roots first, whatever their position in the report, and partition takes that for the order of the input file: with '
               '`remove --isolate r1` the first listed file a/f is removed and r1/f kept, and `--priority bottom` removes the top file')
+
+
+def r12b(ctx):
+    """The dedupe commands match --path / --keep-path against the files as `group` has seen them: below an input path that is a symbolic link a file
+    has two names (the resolved one in the report, and the one below the input path as given); the header of the report says which."""
+    rule = 'C08.R12'
+    lib, bn = ctx.lib, ctx.bin
+    rd = bn.body('run_dedupe') if bn else None
+    if rd is None:
+        ctx.missing(rule, 'bin::run_dedupe')
+        return
+    # (1) run_dedupe takes the aliases from the recorded group command
+    stores = []
+    for blk in rd.blocks:
+        for st in blk['stmts']:
+            if 'root_aliases' in place_fields(st['p']) or any(f.endswith('aliases') for f in place_fields(st['p'])):
+                stores.append(st)
+    from_group = [c for c in rd.calls(r'GroupConfig::\w+$') if any(st['rv']['k'] == 'use' and op_local(st['rv'].get('op') or {}) in (forward_locals(rd, c.dest[0]) | {c.dest[0]}) for st in stores)]
+    # (2) both matchers look at every name of the path
+    users = {}
+    for fn in ('dedupe::should_keep', 'dedupe::may_drop'):
+        b = lib.body(fn)
+        if b is None:
+            continue
+        fields = set()
+        for x in [b] + [lib.body(cp) for cp in lib.closures_of(b.path)]:
+            for blk in x.blocks:
+                for st in blk['stmts']:
+                    for pl in rvalue_places(st['rv']):
+                        fields |= set(place_fields(pl))
+        users[fn] = any(f.endswith('aliases') for f in fields)
+    ok = bool(stores) and bool(from_group) and len(users) == 2 and all(users.values())
+    ctx.check(ok, rule, 'bin::run_dedupe|dedupe-side-aliases', (from_group[0].where() if from_group else rd.where()),
+              'run_dedupe takes the aliases of the input paths from the recorded group command (%s) and should_keep / may_drop match every name of a path' % (from_group[0].path.rsplit('::', 1)[-1] if from_group else '-'),
+              'only `group` knows that a file below an input path that is a symbolic link has two names: the dedupe commands match --keep-path / --path against the reported (resolved) path only - with '
+              '`photos -> ../disk/photos`, `group --path "*/originals/**"` selects photos/originals/a.jpg, but `remove --keep-path "*/originals/**"` does not keep it: the file the pattern names is removed')
